@@ -37,9 +37,11 @@ Definition splitv_model (rid : list N) (src : cols) (kname : string) (vs : list 
          end
   end.
 
-(* group: same table, groups in the same order *)
+(* group: same table, groups in the same order; and the source as dumped satisfies the premise of the refinement
+   theorem C14_model_group_refines (so that the theorem speaks about the states the implementation really has) *)
 Definition group_model (rid : list N) (src : cols) (bynames : list string) (obs : gtable) : bool :=
-  match m_group {| m_rid := rid; m_cols := src |} bynames with
-  | Some g => gtable_eqb g obs
-  | None => false
-  end.
+  wf_group_b {| m_rid := rid; m_cols := src |} bynames
+  && match m_group {| m_rid := rid; m_cols := src |} bynames with
+     | Some g => gtable_eqb g obs
+     | None => false
+     end.
